@@ -452,6 +452,11 @@ func execC15(sc c15Scenario) *vstat.Outcome {
 				if l.Header.Get("If-None-Match") == "" && l.Header.Get("If-Modified-Since") == "" {
 					out.Violate("C15", "conditional-dropped", "%s (X-Status %q): the conditional header did not reach the upstream", what, xs)
 				}
+			} else if strings.HasPrefix(r.Cond, "range") {
+				// hit-for-pass and passed requests: the Range header is the client's business with the upstream
+				if l.Header.Get("Range") == "" {
+					out.Violate("C15", "range-dropped", "%s (X-Status %q): the client's Range header did not reach the upstream although the request is not a cold cacheable fetch", what, xs)
+				}
 			}
 		}
 		// response side
